@@ -641,6 +641,12 @@ class AdditiveKernel(Kernel):
 
         return new_kernel
 
+    def expand_batch(self, *sizes) -> Kernel:
+        # the generic implementation cannot replace the members of the ModuleList
+        new_kernel = deepcopy(self)
+        new_kernel.kernels = ModuleList([kernel.expand_batch(*sizes) for kernel in self.kernels])
+        return new_kernel
+
 
 class ProductKernel(Kernel):
     """
@@ -696,4 +702,10 @@ class ProductKernel(Kernel):
         for i, kernel in enumerate(self.kernels):
             new_kernel.kernels[i] = kernel.__getitem__(index)
 
+        return new_kernel
+
+    def expand_batch(self, *sizes) -> Kernel:
+        # the generic implementation cannot replace the members of the ModuleList
+        new_kernel = deepcopy(self)
+        new_kernel.kernels = ModuleList([kernel.expand_batch(*sizes) for kernel in self.kernels])
         return new_kernel
